@@ -348,6 +348,10 @@ pub fn array(rng: &mut Rng, dt: &DataType, len: usize, cfg: Cfg) -> ArrayRef {
         },
         Union(fields, mode) => {
             let ids: Vec<i8> = fields.iter().map(|(i, _)| i).collect();
+            if ids.is_empty() {
+                // a union without variants has no rows
+                return new_empty_array(dt);
+            }
             let tids: Vec<i8> = (0..len).map(|_| ids[rng.below(ids.len())]).collect();
             match mode {
                 UnionMode::Sparse => {
